@@ -45,7 +45,7 @@ def incr (s : SM) : Option SM :=
 /-- the state after a successful `decr` -/
 def decrT (s : SM) : SM :=
   { s with nb := s.nb - 1,
-           canAccept := if !s.canAccept && s.nb - 1 < s.max * Consts.sessResumeNum / Consts.sessResumeDen then true else s.canAccept }
+           canAccept := if !s.canAccept && s.nb - 1 < Nat.max (s.max * Consts.sessResumeNum / Consts.sessResumeDen) Consts.sessResumeFloor then true else s.canAccept }
 
 /-- `decr`; `none` models the `assert!(nb != 0)` panic. -/
 def decr (s : SM) : Option SM :=
